@@ -14,6 +14,7 @@ from .fold import TOP, mk_enum, to_py
 from .rules_tables import anchor_fn, where_fn, VERSION, ECL, MASK, MTYPE
 
 QUICK_PLACE_VERSIONS = list(range(1, 11)) + [14, 21, 27]  # all alignment-grid shapes up to 4x4, version info, both count classes
+QUICK_TERM_VERSIONS = [1, 2, 3, 4, 5, 6, 39, 40]  # smallest sizes plus the two largest (the synthetic border rows are 177 long)
 QUICK_MASK_VERSIONS = list(range(1, 11))  # sizes 21..57: every residue of the size modulo 2, 3, 6 and 12 occurs
 _G = {}
 
@@ -648,3 +649,147 @@ def _sym(x, ec):
     if x[0] == "int":
         return str(x[2])
     return str(x)
+
+
+# ---------------------------------------------------------------------------------------------------------------------
+# C16.R3: the terminal renderer with symbolic module values, all 40 sizes
+# ---------------------------------------------------------------------------------------------------------------------
+
+GLYPH = {(True, True): 0x20, (True, False): 0x2584, (False, True): 0x2580, (False, False): 0x2588}
+
+
+def _tok_conds(tok, acc):
+    if isinstance(tok, tuple) and tok and tok[0] == "sel":
+        acc.add(tok[1])
+        for x in tok[2]:
+            _tok_conds(x, acc)
+        for x in tok[3]:
+            _tok_conds(x, acc)
+
+
+def _tok_eval(tok, env):
+    if isinstance(tok, int):
+        return (tok,)
+    if isinstance(tok, tuple) and tok and tok[0] == "sel":
+        br = tok[2] if env[tok[1]] else tok[3]
+        out = ()
+        for x in br:
+            out += _tok_eval(x, env)
+        return out
+    return (("?", str(tok)[:40]),)
+
+
+def _tok_canon(tok):
+    conds = set()
+    _tok_conds(tok, conds)
+    conds = sorted(conds, key=repr)
+    if len(conds) > 4:
+        return ("too-many-conditions", len(conds))
+    table = {}
+    for bits in range(1 << len(conds)):
+        env = {c: bool((bits >> i) & 1) for i, c in enumerate(conds)}
+        table[tuple(env[c] for c in conds)] = _tok_eval(tok, env)
+    return (tuple(conds), tuple(sorted(table.items())))
+
+
+def _term_job(v):
+    f = _G["facts"]
+    n = ref.side(v)
+    pe = peval.PEval(f)
+    r = pe.call("qr::QRCode::default", [fold.mk_int("usize", n)])
+    if r.kind != "ret" or r.value == TOP or r.value[0] != "adt" or r.value[4][0] == TOP or r.value[4][0][0] != "harr":
+        return {"v": v, "status": (r.kind, r.why or "QRCode::default does not fold")}
+    qr = r.value
+    h = qr[4][0]
+    ln = pe.heap.length(h)
+    for rr in range(n):
+        for cc in range(n):
+            pe.heap.put(h, rr * n + cc, ("adt", "module::Module", 0, "Module", (("tagint", "u8", 0, (rr, cc, False)),)))
+    _ = ln
+    r2 = pe.run("helpers::print_matrix_with_margin", [("ref", ("const", qr))])
+    if r2.kind != "ret" or r2.value == TOP or r2.value[0] != "string":
+        return {"v": v, "status": (r2.kind if r2.kind != "ret" else "top", r2.why or "result is not a string")}
+    return {"v": v, "status": ("ret", None), "tokens": [_tok_canon(t) for t in r2.value[1]], "calls": sorted(pe.calls_seen)}
+
+
+def _term_expected(n):
+    def const(cp):
+        return _tok_canon(cp)
+
+    def cell(top, bottom):
+        # top / bottom: ("m", r, c) | True (dark filler) | False (light border)
+        def val(x, env):
+            return env[x] if isinstance(x, tuple) else x
+        conds = sorted({x for x in (top, bottom) if isinstance(x, tuple)}, key=repr)
+        table = {}
+        for bits in range(1 << len(conds)):
+            env = {c: bool((bits >> i) & 1) for i, c in enumerate(conds)}
+            table[tuple(env[c] for c in conds)] = (GLYPH[(val(top, env), val(bottom, env))],)
+        return (tuple(conds), tuple(sorted(table.items())))
+    out = []
+    # first line: dark filler above, light border row below; the border columns likewise
+    out += [const(0x2584)] + [cell(True, False) for _ in range(n)] + [const(0x2584), const(10)]
+    for i in range(0, n - 1, 2):
+        out += [const(0x2588)] + [cell((i, c), (i + 1, c)) for c in range(n)] + [const(0x2588), const(10)]
+    out += [const(0x2588)] + [cell((n - 1, c), False) for c in range(n)] + [const(0x2588)]
+    return out
+
+
+def c16_r3(ctx, f, rid="C16.R3"):
+    ctx.rule(rid, "terminal renderer by partial evaluation with symbolic module values: (size+1)/2+1 lines of size+2 glyphs, glyph "
+                  "(top,bottom) = the two modules in place, light border all around, for all 40 sizes")
+    fn = anchor_fn(ctx, rid, f, "helpers::print_matrix_with_margin", ["&qr::QRCode"], "std::string::String")
+    if not fn:
+        return
+    _G["facts"] = f
+    versions = list(range(1, 41)) if ctx.tier == "thorough" else QUICK_TERM_VERSIONS
+    mp = multiprocessing.get_context("fork")
+    with mp.Pool(min(16, os.cpu_count() or 1)) as pool:
+        res = pool.map(_term_job, sorted(versions, reverse=True), chunksize=1)
+    groups = _Groups()
+    runs = 0
+    undecided = {}
+    for job in sorted(res, key=lambda r: r["v"]):
+        v = job["v"]
+        n = ref.side(v)
+        name = "V%02d" % v
+        if job["status"][0] != "ret":
+            if job["status"][0] == "diverge":
+                groups.add("panics", name, "a string", job["status"][1])
+            else:
+                undecided.setdefault(job["status"][1], []).append(name)
+            continue
+        runs += 1
+        got = job["tokens"]
+        exp = _term_expected(n)
+        bad = None
+        if len(got) != len(exp):
+            bad = ("length", "%d glyphs and newlines" % len(exp), "%d" % len(got))
+        else:
+            for k, (a, b) in enumerate(zip(got, exp)):
+                if a != b:
+                    line, col = divmod(k, n + 3)
+                    bad = ("line %s column %s" % (line if line < 2 else "k", col if col < 3 else ("c" if col < n else "n-%d" % (n + 2 - col))),
+                           _show_tok(b), _show_tok(a) + " at line %d column %d" % (line, col))
+                    break
+        if bad is None:
+            ctx.ok(rid, "%s: %d lines of %d glyphs, every module in place, light border" % (name, (n + 1) // 2 + 1, n + 2))
+        else:
+            groups.add(bad[0].replace(" ", "_"), name, bad[1], bad[2])
+    groups.emit(ctx, rid, "helpers::print_matrix_with_margin", where_fn(fn), fn.path,
+                "the text rendering does not encode the matrix faithfully with a one-module light border (first differing glyph of "
+                "the first size shown; conditions are (row, column) of the modules consulted)")
+    for why, names in sorted(undecided.items()):
+        ctx.abstain(rid, "renderer not foldable for %s: %s" % (", ".join(names[:4]) + (" ..." if len(names) > 4 else ""), why), where_fn(fn))
+    if not undecided:
+        ctx.floor(rid, "sizes evaluated", runs + sum(len(e["insts"]) for e in groups.g.values() if False), len(versions) - sum(
+            len(e["insts"]) for k, e in groups.g.items() if k == "panics"))
+
+
+def _show_tok(t):
+    if t[0] == "too-many-conditions":
+        return str(t)
+    conds, table = t
+    if not conds:
+        return "U+%04X" % table[0][1][0] if table[0][1] and isinstance(table[0][1][0], int) else str(table[0][1])
+    return "glyph of modules %s: %s" % (list(conds), {k: ["U+%04X" % c if isinstance(c, int) else c for c in v] for k, v in table})
